@@ -332,9 +332,89 @@ def r5_serial_flush(ck, cx):
     ck.floor('R5', n, 2, 'paths to the serial write')
 
 
+def r6_short_first_read_is_a_fault(ck, cx, rule='R6'):
+    """_recv (length-prefixed mode): after the first, fixed-size read every continuing path has established
+    len(first read) == min_size; anything else -- an empty read on a timeout included -- raises, which is what makes
+    _transact close the connection so that a late reply cannot be taken for the answer to the next request."""
+    ck.rule(rule, '_recv: a first read that is not exactly min_size bytes long (empty included) raises InvalidMessageReceivedException')
+    from ..sym import constraints as _cons
+    from ..txmodel import TxShape
+    tm = cx.idx.cls('pymodbus.transaction.ModbusTransactionManager')
+    f = cx.method(tm, '_recv')
+    ck.saw('functions', f.qn)
+    nz = cx.nz(f.mod, tm)
+    full = f.params[2]
+    n = 0
+    for p in cx.enum(f, tm, max_depth=0, consts={full: False}, max_paths=400000):
+        if p.exit and p.exit[0] == 'exc':
+            continue
+        annotate(p, heap=False)
+        if contradictory(p):
+            continue
+        reads = [i for i, e in enumerate(p.ev) if e.kind == 'call' and callee_name(e.node) == 'recvPacket']
+        if not reads:
+            continue
+        n += 1
+        est = False
+        for e in p.ev[reads[0]:]:
+            if e.kind != 'cond':
+                continue
+            try:
+                cs = _cons(e._sub, e.a, nz)
+            except Exception:
+                cs = []
+            for c in cs:
+                if c[0] == 'eq' and any(len(k) == 1 and k[0].startswith('len(') and 'recvPacket' in k[0] for k in c[1].t):
+                    est = True
+        ck.ob(rule, f.qn, 'a continuing path has established len(first read) == min_size', est, detail='short-first-read-continues', loc=cx.floc(f),
+              message='_recv can go on after a first read that is shorter than min_size (for instance empty, on a timeout) without raising: _transact '
+                      'then leaves the connection open and the late reply is read as the answer to the next request')
+    ck.floor(rule, n, 4, 'non-raising paths of _recv in length-prefixed mode')
+
+
+def r7_fixed_time_budget(ck, cx):
+    """The polling loops of the sync clients are bounded by a time budget that starts once: inside the loop neither the
+    reference the loop test reads (start) nor a deadline computed from the timeout (end) is assigned again.  Whether the
+    clock calls themselves return is not decided."""
+    ck.rule('R7', 'the time budget of a client polling loop is fixed before the loop: its start / deadline variable is not reassigned inside the loop')
+    n = 0
+    for cqn, fname in (('pymodbus.client.sync.ModbusSerialClient', '_wait_for_data'), ('pymodbus.client.sync.ModbusTcpClient', '_recv')):
+        c = cx.idx.cls(cqn)
+        f = cx.method(c, fname)
+        ck.saw('functions', f.qn)
+        for loop in [x for x in ast.walk(f.node) if isinstance(x, ast.While)]:
+            inside = {id(x) for x in ast.walk(loop)}
+            refs = {x.id for x in ast.walk(loop.test) if isinstance(x, ast.Name)}
+            for a in ast.walk(f.node):
+                if isinstance(a, ast.Assign) and id(a) not in inside and a.lineno < loop.lineno and 'timeout' in U(a.value) and not isinstance(a.value, (ast.Call, ast.Lambda)):
+                    refs |= {t.id for t in a.targets if isinstance(t, ast.Name)}
+            # only time references: names whose binding before the loop involves the clock
+            clocked = set()
+            for a in ast.walk(f.node):
+                if isinstance(a, ast.Assign) and id(a) not in inside and a.lineno < loop.lineno and any(isinstance(t, ast.Name) for t in a.targets):
+                    if any(isinstance(x, ast.Call) and U(x.func) in ('time.time', 'time.monotonic') for x in ast.walk(a.value)) or \
+                            any(isinstance(x, ast.Name) and x.id in clocked for x in ast.walk(a.value)):
+                        clocked |= {t.id for t in a.targets if isinstance(t, ast.Name)}
+            # `now` variables are re-read every iteration by design: they are the ones compared AGAINST the reference
+            now_vars = {t.id for a in ast.walk(loop) if isinstance(a, ast.Assign) and isinstance(a.value, ast.Call) and U(a.value.func) in ('time.time', 'time.monotonic')
+                        for t in a.targets if isinstance(t, ast.Name)} - {x.id for x in ast.walk(loop.test) if isinstance(x, ast.Name)}
+            refs = (refs & clocked) - now_vars
+            for r in sorted(refs):
+                n += 1
+                again = [a for a in ast.walk(loop) if isinstance(a, (ast.Assign, ast.AugAssign)) and any(
+                    isinstance(t, ast.Name) and t.id == r for t in (a.targets if isinstance(a, ast.Assign) else [a.target]))]
+                ck.ob('R7', f.qn, 'time reference `%s` is not reassigned inside the polling loop' % r, not again,
+                      detail='time-budget-restarted %s' % r, loc=cx.floc(f, again[0]) if again else cx.floc(f),
+                      message='%s restarts its time budget inside the loop (`%s`): a line that keeps trickling bytes keeps the call from ever timing out'
+                              % (f.qn, U(again[0])[:50] if again else ''))
+    ck.floor('R7', n, 2, 'time references of client polling loops')
+
+
 def run(ck, tier):
     cx = Ctx()
+    ck.guard(r7_fixed_time_budget, ck, cx)
     ck.guard(r5_serial_flush, ck, cx)
+    ck.guard(r6_short_first_read_is_a_fault, ck, cx)
     sh = TxShape(cx)
     ck.saw('functions', sh.ex.qn)
     ck.guard(r1_bound, ck, cx, sh)
